@@ -100,13 +100,22 @@ def run_one(case):
             ev["effect_ok"] = "7z" in so and "LZMA2" in so
         elif cmd == "c":
             target = arc if opt != "no-suffix" else arc[:-3]
+            if opt == "dotted-name":
+                # "arc.v1" must become "arc.v1.7z" (the suffix is appended, not substituted)
+                target = os.path.join(wd, "arc.v1")
+                arc = target + ".7z"
+                if cond == "exists":
+                    shutil.copy(good, arc)
             args = ["c", target, "src"]
             vol = {"vol-digits": "4096", "vol-b": "4096b", "vol-k": "4k", "vol-m": "1m", "vol-g": "1g", "vol-bad-unit": "10x", "vol-empty": ""}.get(opt)
             if vol is not None:
                 args = ["c", "-v", vol, target, "src"]
             ev["exit"], so, se = cli(args, wd)
             ev["detail"] = se[-200:]
-            if ev["exit"] == 0:
+            if ev["exit"] == 0 and vol is None and not os.path.exists(arc):
+                ev["effect_ok"] = False
+                ev["detail"] = f"exit 0 but {os.path.basename(arc)} was not written; directory holds {sorted(os.listdir(wd))[:6]}"
+            elif ev["exit"] == 0:
                 if vol is None:
                     names, data = lib_members(py7zr, arc)
                 else:
@@ -193,7 +202,7 @@ def run(tier, rep, ev):
     # enumerate the same combinations the model does
     combos = []
     for cmd, conds, opts in (("i", ["absent"], ["none"]),
-                             ("c", ["absent", "exists"], ["none", "no-suffix", "vol-digits", "vol-b", "vol-k", "vol-m", "vol-g", "vol-bad-unit", "vol-empty"]),
+                             ("c", ["absent", "exists"], ["none", "no-suffix", "dotted-name", "vol-digits", "vol-b", "vol-k", "vol-m", "vol-g", "vol-bad-unit", "vol-empty"]),
                              ("a", ["intact", "absent"], ["none"]),
                              ("l", ["intact", "intact-empty", "intact-dirs", "header-damaged", "data-damaged", "stored-damaged", "needs-password"], ["none", "verbose"]),
                              ("x", ["intact", "intact-empty", "intact-dirs", "header-damaged", "data-damaged", "stored-damaged", "needs-password", "unsupported-method"],
